@@ -33,6 +33,7 @@ RULE = (
 ASSUMPTIONS = [
     "alpha_s reference: DOP853 solution of the truncated beta function with pole-mass matching at (k_q m_q)^2 to relative order PTO (perturbative inverse downwards), n_f path reference -> target as the scheme prescribes; "
     "agreement with the coupling the library uses measured <= 5e-7 (1e-13 at LO); for ModEv=TRN only the reference point and the unknown-scheme rejection are demanded",
+    "theory2 states: the card's alphaqed in {0.0075, 0.0123}, XIR and XIF in {1, 0.5, 2} through apply_pdf_theory on one-hot outputs with alpha / mixed-log keys and a Q2-dependent PDF",
     "theory cards: HQ=POLE, MaxNfAs=6, QED=0; masses default or (1.3,4.2,173), mass reference scales Qm equal to the masses, 2x or 0.75x the masses; FNS in {ZM-VFNS, FFNS, FFN0, FONLL-FFNS, FONLL-FFN0}; unknown FNS must raise ValueError",
     "one-hot outputs are synthetic Output objects built through the public constructors (Output(), ESFResult)",
 ]
@@ -100,6 +101,9 @@ def _states_base(tier, seed):
         if ms:
             st["m"] = ms
         out.append(st)
+    # theory-card path: the card's alphaqed, XIR and XIF must be the ones used (one-hot outputs with an alpha key / a mixed log key, Q2-dependent PDF)
+    for aq, xir, xif, fns in itertools.product([0.007496252, 0.0123], [1.0, 0.5, 2.0], [1.0, 0.5, 2.0], ["ZM-VFNS", "FFNS"]):
+        out.append({"t": "theory2", "alphaqed": aq, "XIR": xir, "XIF": xif, "fns": fns})
     for bad in ("VFNS", "", "ZM"):
         out.append({"t": "theory", "fns": bad, "nfff": 3, "pto": 1, "alphas": 0.118, "Qref": 91.2, "nfref": 5, "k": [1.0, 1.0, 1.0], "ModEv": "EXA", "XIR": 1.0})
     return out
@@ -162,7 +166,44 @@ def _states_deep(seed):
 
 def execute(st):
     yrun.reset_memos()
-    return {"onehot": _onehot, "real": _real, "theory": _theory}[st["t"]](st)
+    return {"onehot": _onehot, "real": _real, "theory": _theory, "theory2": _theory2}[st["t"]](st)
+
+
+def _theory2(st):
+    th = copy.deepcopy(cards.BASE_THEORY)
+    th.update({"FNS": st["fns"], "NfFF": 4, "PTO": 2, "alphaqed": st["alphaqed"], "XIR": st["XIR"], "XIF": st["XIF"]})
+    Q2 = 7.3
+    x_n = G[2]
+
+    class QPDF:
+        def hasFlavor(self, pid):
+            return True
+
+        def xfxQ2(self, pid, x, q2):
+            return x * (1.0 + 0.1 * q2)
+
+    viol = []
+    mu = math.sqrt(Q2) * st["XIR"]
+    a_s = ref_apply.alpha_s(th, mu) / (4 * math.pi)
+    LR, LF = math.log(1.0 / st["XIR"] ** 2), math.log(1.0 / st["XIF"] ** 2)
+    f = 1.0 + 0.1 * Q2 * st["XIF"] ** 2
+    nz = 0
+    for key in ((0, 1, 0, 0), (1, 1, 0, 0), (2, 0, 1, 1), (1, 0, 0, 1), (2, 0, 2, 0), (0, 2, 0, 0)):
+        out = _synthetic(key, 2, 2, [Q2])
+        yrun.log_cards(th, None)
+        try:
+            r = out.apply_pdf_theory(QPDF(), th)["F2_total"][0]
+        except Exception as e:
+            info = yrun.classify_exception(e)
+            return {"violations": [_v(st, "theory-exception", f"apply_pdf_theory raised {info['exc']} at {info['inner']}: {info['excmsg']} for {st}")], "nontrivial": True, "outcome": info["exc"], "transitions": 1}
+        k, l, i, j = key
+        exp = a_s**k * st["alphaqed"] ** l * (LR**i if i else 1.0) * (LF**j if j else 1.0) * f
+        if exp != 0:
+            nz += 1
+        tol = (TOL_AS * k + 1e-13) * abs(exp) + 1e-300
+        if abs(r["result"] - exp) > tol:
+            viol.append(_v(st, "theory-card-values", f"apply_pdf_theory with alphaqed={st['alphaqed']} XIR={st['XIR']} XIF={st['XIF']} FNS={st['fns']}: key {key} gives {r['result']!r}, expected a_s(xiR Q)^k alphaqed^l ln(1/xiR^2)^i ln(1/xiF^2)^j f(x, xiF^2 Q2)/x = {exp!r}"))
+    return {"violations": viol[:2], "nontrivial": nz > 0, "outcome": digest([st, nz]), "transitions": 6, "sub": 6}
 
 
 def _onehot(st):
